@@ -337,6 +337,31 @@ def shard(ctx, budget_s, learn):
         got = any_sig_response(rep)
         if got is not None and sigref.RealMatcher(ctx).identify(p, True) == NOMATCH:
             ctx.violation("nosig_answered", "payload completing no signature answered by the %s responder" % sigref.NAMES[got], observed=p.hex())
+    # ---- a stream whose leading bytes complete no signature stays unanswered, whatever follows and however it is cut ----------
+    reqs = [(pid, full) for pid in (HTTP, SSH, GHOST, STUN, RPC_TCP, SMB1, SMB2) for full, _free in forms(pid, rng)[:3]]
+    for _ in range(60 if ctx.tier == "quick" else 1500):
+        pid, req = rng.choice(reqs)
+        n = rng.choice([1, 2, 5, 27, 28, 29, 30, 40, 64, rng.randrange(1, 200)])
+        pre = rng.choice([bytes(rng.getrandbits(8) for _x in range(n)), (b"PROPFIND / HTTP/1.1\r\nDepth: 0\r\n" * 8)[:n], b"\0" * n, rng.choice(nodes).path + bytes(n)])
+        stream = pre + req
+        if sigref.identify(stream, False) != NOMATCH or sigref.undecided(pre) or sigref.RealMatcher(ctx).identify(stream, False) != NOMATCH:
+            continue
+        cuts = sorted(set([len(pre)] + [rng.randrange(1, len(pre) + 1) for _x in range(rng.choice([0, 0, 1, 2]))]))
+        cuts = [c for c in cuts if 0 < c < len(stream)]
+        e = gen.endp(rng, cfg, rng.random() < 0.5)
+        f = Flow(ctx, e, gen.rnd_port(rng), gen.rnd_port(rng))
+        if f.syn() is None:
+            continue
+        ctx.stats["nosig_tcp_streams"] += 1
+        ctx.nontrivial("nosig_tcp", len(pre), pid, tuple(cuts))
+        for seg in cut(stream, cuts):
+            rep = app_payload(f.data(seg))
+            if rep:
+                ctx.violation("nosig_stream_answered:%s" % sigref.NAMES[pid],
+                              "TCP stream whose leading bytes complete no signature (%d foreign bytes, then a %s request, cuts %s) was answered with %s" % (
+                                  len(pre), sigref.NAMES[pid], cuts, rep[:16].hex()), observed=rep.hex()[:200], expected="bare ACKs only",
+                              extra={"stream": stream.hex()[:600], "cuts": cuts})
+                break
     # ---- segmentation / address independence of the decision ----------------------------------------------------------------
     deadline = time.time() + budget_s
     real = sigref.RealMatcher(ctx)
